@@ -7,7 +7,9 @@ import (
 	"encoding/binary"
 	"fmt"
 	"net"
+	"runtime"
 	"sort"
+	"strings"
 	"sync"
 	"time"
 
@@ -620,6 +622,19 @@ func (s *Sim) probeClosed(lane int) {
 	}
 }
 
+// handoffPending reports whether a goroutine of the library is still about to hand an inbound
+// message over (parked in pushInbound, or the group layer blocked on its output channel).
+func handoffPending() bool {
+	buf := make([]byte, 1<<20)
+	buf = buf[:runtime.Stack(buf, true)]
+	for _, g := range strings.Split(string(buf), "\n\n") {
+		if strings.Contains(g, "pushInbound.func") || (strings.Contains(g, "knx.serveGroupInbound") && strings.Contains(g, "chan send")) {
+			return true
+		}
+	}
+	return false
+}
+
 // Result is what the executor hands to the oracles besides the trace.
 type Result struct {
 	ConnErr       string
@@ -747,12 +762,18 @@ func (s *Sim) Run() *Result {
 	lanes.Wait()
 	time.Sleep(us(p.TailUs))
 	if p.DrainUs > 0 && drainDone == nil && !res.InboundClosed {
+		deadline := time.Now().Add(s.Limit)
 		for {
 			got, closed := s.readOne(us(p.DrainUs))
 			if closed {
 				res.InboundClosed = true
 			}
-			if !got {
+			if got {
+				continue
+			}
+			// On the fake clock silence is conclusive (time only advances when everything is blocked). On the
+			// real clock a hand-off parked in the library may simply not have run yet.
+			if s.Bubble || closed || time.Now().After(deadline) || (s.Sock.Pending() == 0 && !handoffPending()) {
 				break
 			}
 		}
